@@ -67,7 +67,9 @@ func (f *filters) note(point, idx, id, v int) {
 	f.execs = append(f.execs, filtExec{id, point, idx, v, seq})
 }
 
-func filterBody(id, point, idx int) string { return fmt.Sprintf("filter-response r%d p%d f%d", id, point, idx) }
+func filterBody(id, point, idx int) string {
+	return fmt.Sprintf("filter-response r%d p%d f%d", id, point, idx)
+}
 
 // install registers the generated chains through the real AddFilter.
 func (f *filters) install(srv *BfeServer) {
